@@ -182,10 +182,15 @@ void *sim_mmap(void *addr, size_t len, int prot, int flags, int fd, off_t off) {
   // the simulated machine has no room for mappings of a terabyte and more (the real one refuses them as well):
   // a deterministic environment refusal, so that absurd memory parameters are cheap, legal workload
   bool toobig = len >= (1ull << 40);
-  bool envfail = !inj && ((huge && !m.env.hugetlb_ok) || toobig);
-  MemReq rq{RQ_MMAP, len, huge, inj || envfail, inj, k};
+  // ... and a run may model a smaller machine (an address-space or overcommit limit): the refusal is then an injected
+  // fault like any other - the reference's real kernel would grant the mapping, so the call simply has to fail cleanly.
+  // It lets parameter shapes of 64 MiB .. 512 GiB reach the code that decides by region size without paying for them.
+  bool overlimit = !toobig && m.env.map_limit && len >= m.env.map_limit;
+  bool envfail = !inj && ((huge && !m.env.hugetlb_ok) || toobig || overlimit);
+  MemReq rq{RQ_MMAP, len, huge, inj || envfail, inj || (envfail && overlimit), k};
   log_req(m, t, rq);
-  if (envfail && toobig) m.stats["mmap_refused_too_big"]++;
+  if (envfail && overlimit) m.stats["mmap_refused_by_machine_limit"]++;
+  else if (envfail && toobig) m.stats["mmap_refused_too_big"]++;
   else if (envfail) m.stats["hugetlb_refused_by_env"]++;
   if (huge && !inj && !envfail) m.stats["hugetlb_granted"]++;
   if (inj) {
@@ -245,7 +250,7 @@ void EntropyDev::begin_run(uint64_t s) {
   seed = s;
   for (int t = 0; t < MAX_TASKS; t++) { counter[t] = 0; draws[t].clear(); }
 }
-void EntropyDev::begin_op(int task) { draws[task].clear(); }
+void EntropyDev::begin_op(int task) { draws[task].clear(); last[task].n = 0; last[task].buf = nullptr; }
 void EntropyDev::fill(int task, void *buf, size_t n) {
   // per-task stream: what a task is handed never depends on the schedule
   uint64_t x = seed ^ (0x51ed270b0f1ULL * (uint64_t)(task + 1)) ^ (counter[task]++ * 0x9e3779b97f4a7c15ULL);
@@ -257,6 +262,7 @@ void EntropyDev::fill(int task, void *buf, size_t n) {
   }
   got.assign((const char *)buf, n);
   draws[task].push_back(EntropyDraw{task, cur_op(task), got, buf});
+  last[task].buf = buf; last[task].n = n <= sizeof last[task].bytes ? n : 0; if (last[task].n) memcpy(last[task].bytes, buf, n);
   ev(vfmt("entropy t%d op%d arc4random_buf n=%zu bytes=%s", task, cur_op(task), n, hexenc(got).c_str()));
   MemLayer::get().stats["entropy_draws"]++;
 }
